@@ -85,9 +85,18 @@ func VH_C10_promise_transfer() {
 	vAssert(vLocksHeld() == 0, "C10.promise.fulfill.no-lock-held")
 	vAssert(ph.shutdowns == 1, "C10.promise.promise-hook-shut-down-once-on-resolution")
 	vAssert(th.shutdowns == 0, "C10.promise.target-alive")
+	// a reference added after resolution through a handle that has not been used since counts on
+	// the resolved capability
+	lateFirst := vConc(int(vNondetU8()), 2) == 1
+	if lateFirst {
+		refs = append(refs, refs[len(refs)-1].AddRef())
+	}
 	// calls through the promised client now reach the target
 	c.SendCall(context.Background(), Send{})
 	vAssert(th.sends == 1 && ph.sends == 0, "C10.promise.calls-reach-resolution")
+	if !lateFirst {
+		refs = append(refs, refs[len(refs)-1].AddRef())
+	}
 	// the target stays alive until its own reference AND every transferred one is released
 	target.Release()
 	vAssert(th.shutdowns == 0, "C10.promise.transferred-references-keep-target-alive")
